@@ -27,6 +27,9 @@ _TS = "XonshVerif.Model.TokenSource"
 THEOREMS = {
     "C01": _INERT + [("XV.Helpers.kw_defaults_length", _HELP), ("XV.Helpers.defaults_le_positional", _HELP), ("XV.Helpers.args_order", _HELP),
                      ("XV.Src.kept_no_trivia", _TS), ("XV.Src.kept_sublist", _TS), ("XV.Src.kept_keeps_significant", "XonshVerif.Proofs.TokenSourceKeep"), ("XV.Src.kept_no_double_newline", "XonshVerif.Proofs.TokenSourceKeep"), ("XV.Span.span_end_is_last_significant_token", "XonshVerif.Proofs.Span"), ("XV.Span.span_well_oriented", "XonshVerif.Properties.C04Span")],
+    "C05": _INERT + [("XV.Desugar.env_name_translation", "XonshVerif.Proofs.Desugar"), ("XV.Desugar.env_expr_translation", "XonshVerif.Proofs.Desugar"), ("XV.Desugar.search_path_translation", "XonshVerif.Proofs.Desugar"),
+            ("XV.Desugar.pyexpr_translation", "XonshVerif.Proofs.Desugar"), ("XV.Desugar.proc_translation", "XonshVerif.Proofs.Desugar"), ("XV.Desugar.inject_translation", "XonshVerif.Proofs.Desugar"),
+            ("XV.Desugar.macro_call_translation", "XonshVerif.Proofs.Desugar"), ("XV.Desugar.env_name_spans", "XonshVerif.Proofs.Desugar"), ("XV.Desugar.env_expr_spans", "XonshVerif.Proofs.Desugar"), ("XV.Desugar.help_single_span", "XonshVerif.Proofs.Desugar")],
     "C07": [("XV.ProcMacro.proc_macro_arg_is_stripped_source", "XonshVerif.Proofs.ProcMacro"), ("XV.ProcMacro.pyStrip_infix", "XonshVerif.Proofs.ProcMacro"), ("XV.WithMacro.with_macro_lines_verbatim", "XonshVerif.Proofs.WithMacro"), ("XV.WithMacro.step_facts", "XonshVerif.Proofs.WithMacro"), ("XV.Macro.loop_partition", _PM), ("XV.Macro.param_is_concat", _PM), ("XV.Macro.concat_is_source_slice", _PM)],
     "C08": [("XV.Tz.token_starts_in_text", "XonshVerif.Properties.C11Tok"), ("XV.Tz.gaps_are_indentation_or_continuation", "XonshVerif.Properties.C08"), ("XV.Tz.between_consecutive_tokens", "XonshVerif.Properties.C08"), ("XV.Tz.after_the_last_token", "XonshVerif.Properties.C08"), ("XV.Tz.before_the_first_token", "XonshVerif.Properties.C08"), ("XV.Tz.Gap.chars", "XonshVerif.Proofs.TokGaps"), ("XV.Tz.tokenizeLines_g", "XonshVerif.Proofs.TokGaps"), ("XV.Rx.m_onlyChars", "XonshVerif.Proofs.RegexChars"),
             ("XV.Tz.all_tokens_are_source_slices", "XonshVerif.Properties.C08"), ("XV.Tz.fstring_tokens_are_source_slices", "XonshVerif.Properties.C08"), ("XV.Rx.m_endsWith", "XonshVerif.Proofs.RegexSuffix"), ("XV.Rx.m_fixedLen", "XonshVerif.Proofs.RegexSuffix"), ("XV.Tz.tokenizeLines_ft", "XonshVerif.Proofs.FstringText"),
@@ -59,7 +62,6 @@ THEOREMS = {
                 "memo_second_call_is_the_first_result", "inlined_choice_equiv")] + [("XV.Peg.parse_total", "XonshVerif.Proofs.PegTotal"), ("XV.Peg.execRule_fuel_mono", "XonshVerif.Proofs.PegMono")],
     "C18": [("XV.Peg.no_multi_edge_on_cycle", _PC), ("XV.Peg.memo_hit_is_constant", _PC)],
     "C02": _INERT,
-    "C05": _INERT,
     "C03": [
         ("XV.Tz.tokenize_total", "XonshVerif.Properties.C03"),
         ("XV.Tz.scanLine_no_loopFuel", _PT),
@@ -395,6 +397,12 @@ def corr_helpers(pid, kinds):
                 x, _cmd, _rest, _m = xonshgen.gen_proc_macro(r)
                 srcs.append(r.choice(["", "x = ", "print(", ""]) .replace("print(", "y = ") + x + "\n")
             srcs += ["$(echo! a  b   c)\n", "![ls! -l  'x  y']\n", "$(echo!)\n", "$(echo! )\n", "r = !(bash! -c 'for i in x: pass')\n", "$[timeit! (a  b) c]\n", "$(echo! a\xa0b  c)\n", "$(echo! \u2003x )\n"]
+        if "desugar" in kinds:
+            srcs += list(xonshgen.XONSH_STMTS) + [x + "\n" for x, _t, _k in corpus.xonsh_pairs()]
+            for _ in range(200 * n):
+                k, x, t, lvl = xonshgen.gen_construct(r)
+                srcs.append(r.choice(["v = {}\n", "f({}, 1)\n", "{}\n", "for i in {}:\n    pass\n"]).format(x))
+            srcs += ["$X = 1\n", "${'a' 'b'} = 2\n", "for $I, ${j} in z: pass\n", "a?.b??.c?\n", "$(echo @(x) @$(ls) `p.*`)\n", "f!(a, [b c], 'd')\n", "with! ctx as c:\n    body\n", "x = $HOME + ${name}\n"]
         if "concat" in kinds:
             from harness.props import c10
 
@@ -454,7 +462,7 @@ CORR = {
     "C01": [corr_peg("C01", xonsh=False), corr_helpers("C01", ("makeargs", "span", "concat"))],
     "C04": [corr_helpers("C04", ("span", "concat"))],
     "C02": [corr_peg("C02")],
-    "C05": [corr_peg("C05")],
+    "C05": [corr_peg("C05"), corr_helpers("C05", ("desugar",))],
     "C03": [corr_peg("C03"), corr_tok("C03"), corr_pipeline("C03")],
     "C18": [corr_peg("C18")],
     "C15": [corr_peg("C15", n_quick=150, n_thorough=3000), corr_peg("C15", n_quick=150, n_thorough=3000, verbose=True), corr_gate],
